@@ -140,13 +140,14 @@ def run(ctx):
     res = Result()
     th = ctx.thorough
     tasks = []
-    up_, down = list(range(2, 13)), list(range(12, 1, -1))
+    top = 16 if th else 12
+    up_, down = list(range(2, top + 1)), list(range(top, 1, -1))
     for N in (2, 3, 4, 5):
         for bx in BOXES + ("Z", "D", "E", "S", "F", "T", "U"):
             for env in ("lin", "abs13", "const"):
                 for ms in (up_, down):
                     for mode in ("seq", "pair", "probe") + (("positional", "refine") if bx in ("B1", "D") else ()):
-                        tasks.append(dict(N=N, box=bx, env=env, trials=200 if th else 30, ms=ms, mode=mode))
+                        tasks.append(dict(N=N, box=bx, env=env, trials=300 if th else 30, ms=ms, mode=mode))
     # one SolverParameters object for a loop over problems of several dimensions
     stasks = []
     for m in (2, 5, 9, 10, 11, 12):
@@ -165,7 +166,7 @@ def run(ctx):
             res.add_violation(dict(driver="shared" if t.get("shared") else "history", **t, message=msg, sig={}))
     res.cov = dict(
         evaluations=solves, distinct_nontrivial=multi,
-        rule="histories = for every (N in 2..5, box, objective) the densities 2..12 ascending and descending, solved one after "
+        rule="histories = for every (N in 2..5, box, objective) the densities 2..12 (thorough 2..16) ascending and descending, solved one after "
              "the other in one process and with the next solver constructed before the previous one is solved; every "
              "logged evaluation point is tested for membership in the density-m centre grid of its own solver; "
              "non-trivial = solves whose trials visited more than 3 distinct cells",
